@@ -13,6 +13,14 @@ META = {
 }
 
 
+def lno(field):
+    """Line number of an output record, -1 if the record is not of the expected shape (it is then kept and compared)."""
+    try:
+        return int(field)
+    except ValueError:
+        return -1
+
+
 def judged(rec, content):
     return not (rec.get("nullable") and any(c in (10, 11) for c in content))
 
@@ -139,7 +147,14 @@ def line_part(chk, tier):
             variants = ["plain", "context", "json", "jsonctx", "jsonpass"] + ([] if r["o"]["inv"] else ["vimgrep"])
             if i % 3 == 0:
                 variants += ["heading", "null", "withname"]
+            if r["o"]["crlf"]:
+                variants += ["plain_lf", "context_lf"]     # --crlf on a file whose lines end in a bare LF
             for v in variants:
+                if v in ("plain_lf", "context_lf"):
+                    a = ["-n", "-b", "--no-heading"] + (["-C1"] if v == "context_lf" else ([] if r["o"]["inv"] else ["--column"]))
+                    jobs.append({"args": base + a + pa + [files["lf"][0]]})
+                    meta.append((i, v))
+                    continue
                 if v == "plain":
                     a = ["-n", "-b", "--no-heading"] + ([] if r["o"]["inv"] else ["--column"])
                 elif v == "vimgrep":
@@ -164,7 +179,9 @@ def line_part(chk, tier):
         chk.evaluations += len(jobs)
         for (i, v), (rc, so, se), j in zip(meta, outs, jobs):
             r = recs[i]
-            f, offs, term = files["crlf" if r["o"]["crlf"] else "lf"]
+            f, offs, term = files["crlf" if (r["o"]["crlf"] and not v.endswith("_lf")) else "lf"]
+            if v.endswith("_lf"):
+                v = v[:-3]
             why = None
             strip = (lambda x: x[:-1] if term == b"\r\n" and x.endswith(b"\r") else x)
             if rc not in (0, 1):
@@ -182,7 +199,7 @@ def line_part(chk, tier):
                     pre = fb + (b"\x00" if v == "null" else b":")
                     ok_path = all(x.startswith(pre) for x in raw)
                     got = [x[len(pre):] for x in raw]
-                got = [g for g in got if g.split(b":", 1)[0].isdigit() and int(g.split(b":", 1)[0]) not in skip]
+                got = [g for g in got if lno(g.split(b":", 1)[0]) not in skip]
                 if not ok_path:
                     why = "path decoration of mode %s is wrong: %r" % (v, raw[:2])
                 elif got != exp:
@@ -190,14 +207,16 @@ def line_part(chk, tier):
                     why = {"first_difference": k, "got": repr(got[k:k + 2]), "expected": repr(exp[k:k + 2])}
             elif v in ("plain", "vimgrep", "context"):
                 got = [strip(x) for x in so.split(b"\n") if x != b""]
+                # the group separator is written with the searcher's terminator (CRLF under --crlf) whatever the lines end in
+                got = [b"--" if x == b"--\r" else x for x in got]
                 if v == "plain":
                     exp = recs_plain(r, lines, offs)
                     skip = set(k for k, c in enumerate(lines, 1) if not judged(r, c))
-                    got = [g for g in got if int(g.split(b":", 1)[0]) not in skip]
+                    got = [g for g in got if lno(g.split(b":", 1)[0]) not in skip]
                 elif v == "vimgrep":
                     exp = recs_vimgrep(r, lines, offs, f.encode())
                     skip = set(k for k, c in enumerate(lines, 1) if not judged(r, c))
-                    got = [g for g in got if int(g[len(f) + 1:].split(b":", 1)[0]) not in skip]
+                    got = [g for g in got if lno(g[len(f) + 1:].split(b":", 1)[0]) not in skip]
                 else:
                     exp = recs_context(r, lines, offs)
                 if got != exp:
